@@ -429,7 +429,7 @@ func c34Case(u string, b *c34Board, class string) (cs Case) {
 	if err != nil {
 		return fail("list: %v", err)
 	}
-	ctx, cancel := context.WithTimeout(context.Background(), 120*time.Second)
+	ctx, cancel := context.WithTimeout(context.Background(), 600*time.Second)
 	defer cancel()
 	cmd := cliChild(ctx, u, nil, "in.d2", outStem+".svg")
 	outb, runErr := cmd.CombinedOutput()
